@@ -209,6 +209,20 @@ fn sec_calls<E: EndianParse>(f: &ElfBytes<'_, E>, s: &SectionHeader, c: &mut Cho
     if let Some(t) = fold!(st, f.section_data_as_strtab(s)) {
         strtab_probe(&t, s.sh_size as usize, c, st);
     }
+    if let Some(mut it) = fold!(st, f.section_data_as_rels(s)) {
+        let _ = it.size_hint();
+        let _ = it.nth(c.below(3) as usize);
+        let _ = it.nth(*c.pick(&[usize::MAX, usize::MAX / 8, 1usize << 61, 70_000]));
+        let _ = it.next();
+        let _ = it.next();
+    }
+    if let Some(mut it) = fold!(st, f.section_data_as_relas(s)) {
+        let _ = it.size_hint();
+        let _ = it.nth(c.below(3) as usize);
+        let _ = it.nth(*c.pick(&[usize::MAX, usize::MAX / 24, 1usize << 60, 70_000]));
+        let _ = it.next();
+        let _ = it.next();
+    }
     if let Some(it) = fold!(st, f.section_data_as_rels(s)) {
         st.flags |= F_RELS;
         drive(it, n, "RelIterator", st, |r, st| st.sink.0 = st.sink.0.wrapping_add(r.r_offset ^ r.r_sym as u64));
@@ -268,14 +282,18 @@ fn hash_finds<'d, E: EndianParse>(sysv: Option<&SysVHashTable<'d, E>>, gnu: Opti
     }
 }
 
-fn symver_queries<E: EndianParse>(t: &SymbolVersionTable<'_, E>, nsyms: usize, c: &mut Choice, st: &mut WalkStats, n: u64) {
+fn symver_queries<E: EndianParse + core::fmt::Debug>(t: &SymbolVersionTable<'_, E>, nsyms: usize, c: &mut Choice, st: &mut WalkStats, n: u64) {
     st.flags |= F_SYMVER;
     for i in [0usize, 1, 2, 3, nsyms.wrapping_sub(1), nsyms, usize::MAX, c.below(nsyms as u64 + 2) as usize, c.val(64) as usize] {
         if let Some(Some(r)) = fold!(st, t.get_requirement(i)) {
+            let _ = write!(st.sink, "{:?}", r);
             st.flags |= F_REQ_HIT;
             st.sink.0 = st.sink.0.wrapping_add(r.file.len() as u64 + r.name.len() as u64 + r.hash as u64 + r.flags as u64 + r.hidden as u64);
         }
         if let Some(Some(d)) = fold!(st, t.get_definition(i)) {
+            if n <= 4096 {
+                let _ = write!(st.sink, "{:?}", d);
+            }
             st.flags |= F_DEF_HIT;
             st.sink.0 = st.sink.0.wrapping_add(d.hash as u64 + d.flags as u64 + d.hidden as u64);
             drive(d.names, n, "SymbolNamesIterator", st, |nm, st| match nm {
@@ -620,9 +638,26 @@ pub fn standalone<'d>(data: &'d [u8], c: &mut Choice<'d>, st: &mut WalkStats) {
             st.sink.0 = st.sink.0.wrapping_add(v.vn_file as u64);
             drive(aux, cnt.min(vlen), "VerNeedAuxIterator", st, |a, st| st.sink.0 = st.sink.0.wrapping_add(a.vna_name as u64));
         });
+        if vlen <= 2048 {
+            let _ = write!(st.sink, "{:?}{:?}", VerDefIterator::new(e, class, count, start, vd), VerNeedIterator::new(e, class, count, start, vd));
+            let mut a = VerDefIterator::new(e, class, count, start, vd);
+            let mut b = VerNeedIterator::new(e, class, count, start, vd);
+            for _ in 0..1 + c.below(3) {
+                if let Some((_, aux)) = a.next() {
+                    let _ = write!(st.sink, "{:?}", aux);
+                }
+                if let Some((_, aux)) = b.next() {
+                    let _ = write!(st.sink, "{:?}", aux);
+                }
+            }
+            let _ = write!(st.sink, "{:?}{:?}", a, b);
+        }
         poke(|| VerDefIterator::new(e, class, count, start, vd), c, st, vlen);
         poke(|| VerNeedIterator::new(e, class, count, start, vd), c, st, vlen);
         let c16 = if c.bool() { *c.pick(&COUNTS16) } else { c.u16() };
+        if vlen <= 2048 {
+            let _ = write!(st.sink, "{:?}{:?}", VerDefAuxIterator::new(e, class, c16, start, vd), VerNeedAuxIterator::new(e, class, c16, start, vd));
+        }
         poke(|| VerDefAuxIterator::new(e, class, c16, start, vd), c, st, vlen);
         poke(|| VerNeedAuxIterator::new(e, class, c16, start, vd), c, st, vlen);
         drive(VerDefAuxIterator::new(e, class, c16, start, vd), (c16 as u64).min(vlen), "VerDefAuxIterator", st, |a, st| st.sink.0 = st.sink.0.wrapping_add(a.vda_name as u64));
